@@ -69,10 +69,13 @@ impl Scenario for Inbound {
         // the channel's topology is set up first, with the nowait variants (queue, exchange,
         // binding): nothing of that may be in the way of what the server sends afterwards
         v.push(json!({"split": [1, 2], "topology": true}));
+        // what the server still had in its pipe when the client's Connection.Close reached it (a
+        // delivery, a returned message) comes ahead of its CloseOk: it still reaches its addressee
+        v.push(json!({"split": [1, 2], "in_pipe_at_close": true}));
         v
     }
     fn bound(&self, tier: &str, p: &Value) -> usize {
-        if p["cuts"].is_u64() || p["fine"] == true || p["topology"] == true {
+        if p["cuts"].is_u64() || p["fine"] == true || p["topology"] == true || p["in_pipe_at_close"] == true {
             return if tier == "thorough" { 2 } else { 1 };
         }
         if tier == "thorough" {
@@ -124,6 +127,52 @@ impl Scenario for Inbound {
         cfg.fine = p["fine"] == true;
         if cfg.fine {
             cfg.max_steps = 20000;
+        }
+        if p["in_pipe_at_close"] == true {
+            let mut broker = StdBroker::new(Handshake::default());
+            let mut fs = vec![deliver(1, "ctag-1-2", 11), header(1, 3, true)];
+            let data = [1u8, 2, 3];
+            let mut off = 0;
+            for s in &split {
+                fs.push(body(1, &data[off..off + s]));
+                off += s;
+            }
+            fs.push(AMQPFrame::Method(1, AMQPClass::Basic(basic::AMQPMethod::Return(basic::Return { reply_code: 312, reply_text: "NO_ROUTE".into(), exchange: "rex".into(), routing_key: "rrk".into() }))));
+            fs.push(header(1, 1, true));
+            fs.push(body(1, &[7]));
+            broker.close_behaviour = vh::sim::broker::CloseBehaviour::FramesThenCloseOk(fs);
+            return Built {
+                broker: Box::new(broker),
+                cfg,
+                root: Box::new(move |ctx: Ctx| {
+                    let conn = match open(&ctx, ConnectionOptions::default().heartbeat(0), ConnectionTuning::default()) {
+                        Ok(c) => c,
+                        Err(e) => {
+                            ctx.log(format!("open -> Err({})", err_name(&e)));
+                            return;
+                        }
+                    };
+                    let mut conn = conn;
+                    let ch = conn.open_channel(Some(1)).expect("ch1");
+                    let c = ch.basic_consume("q", ConsumerOptions::default()).expect("consume");
+                    let returns = ch.listen_for_returns().expect("listen returns");
+                    let rx = c.receiver().clone();
+                    std::mem::forget(c);
+                    ctx.forget(ch);
+                    let r = conn.close();
+                    ctx.log(format!("close -> {}", res(&r)));
+                    loop {
+                        match ctx.recv("consumer", &rx) {
+                            Ok(ConsumerMessage::Delivery(d)) => ctx.log(format!("delivery {}", show_delivery(&d))),
+                            Ok(m) => ctx.log(format!("consumer <- {}", consumer_msg_name(&m))),
+                            Err(_) => break,
+                        }
+                    }
+                    for r in returns.try_iter() {
+                        ctx.log(format!("return {} {} ex={} rk={} body={:?} props={:?}", r.reply_code, r.reply_text, r.exchange, r.routing_key, r.content, r.properties));
+                    }
+                }),
+            };
         }
         Built {
             broker: Box::new(broker),
@@ -203,6 +252,19 @@ impl Scenario for Inbound {
     fn check(&self, p: &Value, o: &Outcome, _w: &World) -> Vec<(String, String)> {
         let mut v = Vec::new();
         let (pt, pf) = (format!("{:?}", props_of(true)), format!("{:?}", props_of(false)));
+        if p["in_pipe_at_close"] == true {
+            let want = vec![
+                "close -> Ok".to_string(),
+                format!("delivery tag=11 red=false ex=ex11 rk=rk11 body=[1, 2, 3] props={}", pt),
+                "consumer <- ClientClosedConnection".to_string(),
+                format!("return 312 NO_ROUTE ex=rex rk=rrk body=[7] props={}", pt),
+            ];
+            let main = o.logs.get("main").cloned().unwrap_or_default();
+            if main != want {
+                v.push(("inbound:in-pipe-at-close".into(), format!("the server sent a delivery and a returned message ahead of its CloseOk; observed {:?}\n expected {:?}", main, want)));
+            }
+            return v;
+        }
         // (the scripted server numbers a channel's requests; the answer to the get carries the number)
         let k = if p["topology"] == true { 3 } else { 0 };
         let want_a = vec![
@@ -290,6 +352,13 @@ impl Scenario for Segments {
                 v.push(json!({"cuts": [k], "closing": true, "hangup": true, "same_pass": same_pass, "reset": true}));
             }
         }
+        // the first session with the client's output stuck (the peer takes nothing, a request
+        // waits in the output buffer) while the server's messages arrive: they are handed on when
+        // they arrive, not when the output gets going again
+        v.push(json!({"cuts": [], "stalled_output": true}));
+        for k in (1..SEGMENTS_STREAM_LEN).step_by(5) {
+            v.push(json!({"cuts": [k], "stalled_output": true}));
+        }
         // a third one: two frames behind OpenOk that are both violations, of different kinds (the
         // first decides how the connection ends, however the burst is cut)
         v.push(json!({"cuts": [], "early2": true}));
@@ -334,6 +403,9 @@ impl Scenario for Segments {
         cfg.time = false;
         cfg.force_cuts = p["cuts"].as_array().unwrap().iter().map(|x| x.as_u64().unwrap() as usize).collect();
         cfg.eof_with_last_byte = p["hangup"] == true && p["same_pass"] == true;
+        let stalled_output = p["stalled_output"] == true;
+        // (only the session itself lets the transport take bytes again)
+        cfg.no_grants = stalled_output;
         if p["reset"] == true {
             cfg.hangup = "reset";
         }
@@ -365,6 +437,13 @@ impl Scenario for Segments {
                 let returns = ch.listen_for_returns();
                 match ch.basic_consume("q", ConsumerOptions::default()) {
                     Ok(c) => {
+                        if stalled_output {
+                            ctx.stall_transport();
+                            let r = ch.queue_bind_nowait("q", "ex", "rk", Default::default());
+                            if r.is_err() {
+                                ctx.log(format!("bind -> {}", res(&r)));
+                            }
+                        }
                         match ctx.recv("consumer", c.receiver()) {
                             Ok(ConsumerMessage::Delivery(d)) => ctx.log(format!("delivery {}", show_delivery(&d))),
                             other => ctx.log(format!("consumer {:?}", other.map(|m| consumer_msg_name(&m)))),
@@ -378,6 +457,9 @@ impl Scenario for Segments {
                         Ok(r) => ctx.log(format!("return {} {} body={:?}", r.reply_code, r.routing_key, r.content)),
                         Err(_) => ctx.log("returns disconnected"),
                     }
+                }
+                if stalled_output {
+                    ctx.force_grant();
                 }
                 let g = ch.basic_get("msgq", false).map(|g| g.map(|g| (g.delivery.delivery_tag(), g.message_count, g.delivery.body.clone())));
                 ctx.log(format!("get -> {:?}", g.map_err(|e| err_name(&e))));
@@ -426,11 +508,14 @@ impl Scenario for Segments {
             return v;
         }
         // the unsegmented run, written down once
+        // (stalled_output: one more request - the nowait bind - before the get; the scripted server
+        // puts the request number into its replies)
+        let k = if p["stalled_output"] == true { 1 } else { 0 };
         let want = vec![
             format!("delivery tag=7 red=false ex=ex7 rk=rk7 body=[1, 2, 3, 4, 5] props={:?}", props_of(true)),
             "return 312 rrk body=[9]".to_string(),
-            "get -> Ok(Some((1003, 103, [98, 111, 100, 121, 45, 49, 45, 51])))".to_string(),
-            "declare -> Ok((Some(1004), Some(104)))".to_string(),
+            format!("get -> Ok(Some(({}, {}, [98, 111, 100, 121, 45, 49, 45, {}])))", 1003 + k, 103 + k, 51 + k),
+            format!("declare -> Ok((Some({}), Some({})))", 1004 + k, 104 + k),
             "close -> Ok".to_string(),
         ];
         // the blocked notice arrived before the listener existed (it sits right behind OpenOk): it
